@@ -433,6 +433,8 @@ func relPath(f File) string {
 		return base + name + ".java"
 	case "maven":
 		return base + "src/main/java/" + pkgDir + "/" + name + ".java"
+	case "neartest": // a source root whose name merely begins like the test root (src/test/java8): these are not test files
+		return base + "src/test/java8/" + pkgDir + "/" + name + ".java"
 	case "testname", "teststname": // the unit is itself named ...Test / ...Tests
 		return base + pkgDir + "/" + name + ".java"
 	case "testdir":
